@@ -3938,3 +3938,24 @@ def _spec_count(I, mask):
 def _repack_fields(I, a, **kw):
     """memory re-packing of a structured array: values and fields kept"""
     return a
+
+
+# ---- C20: torch data loading ------------------------------------------------
+@lib("torch.utils.data.TensorDataset")
+def _tensor_dataset(I, *tensors):
+    return Opaque("TensorDataset")
+
+
+@lib("torch.utils.data.DataLoader")
+def _data_loader(I, dataset, batch_size=1, shuffle=False, **kw):
+    """torch raises ValueError unless batch_size is None or a positive
+    integer (DataLoader -> BatchSampler)"""
+    b = batch_size
+    if isinstance(b, OptVal):
+        I.oblige(f"dataloader_batch_size@{I.cur_line}",
+                 z3.Or(z3.Not(b.present), to_int(b.value) >= 1),
+                 "lib_requires")
+    elif b is not None:
+        I.oblige(f"dataloader_batch_size@{I.cur_line}", to_int(b) >= 1,
+                 "lib_requires")
+    return Opaque("DataLoader")
